@@ -35,6 +35,8 @@ LeavesAsLogged(lr) == {<<x, lr[x]>> : x \in DOMAIN lr}
 PostOK(e) ==
     /\ Check("post.rows", Len(hist') = e.post.n)
     /\ Check("post.arms", arms' = e.post.arms)
+    /\ ("stored" \in DOMAIN e.post) =>
+          Check("post.stored", [i \in DOMAIN hist' |-> <<hist'[i].a, hist'[i].c, hist'[i].x>>] = e.post.stored)
     /\ (NP = "lsh") => Check("post.tables", TablesAsLogged(tables') = e.post.tables)
     /\ (NP = "tree") => Check("post.leaves",
             \A a \in RangeS(arms') : LeavesAsLogged(leafRew'[a]) = {e.post.leaves[a][j] : j \in DOMAIN e.post.leaves[a]})
